@@ -232,7 +232,8 @@ def live(node, m, g):
     return True
 
 
-def validate_ir(ir, input_zero_sized=(), after_fault=False, original_blocks=None, self_loop_blocks=(), input_next=None):
+def validate_ir(ir, input_zero_sized=(), after_fault=False, original_blocks=None, self_loop_blocks=(), input_next=None,
+                nocode_after=None):
     """Returns a list of (kind, detail) problems."""
     import io
 
@@ -327,6 +328,10 @@ def validate_ir(ir, input_zero_sized=(), after_fault=False, original_blocks=None
             # have been deleted afterwards)
             if input_next is not None and b in input_next:
                 nxt = input_next[b]
+            elif nocode_after is not None and nocode_after(b):
+                # a block a patch created (e.g. the return site of a patch call) that was emptied where the input
+                # block it lies in was followed by data or by nothing when the decision was made
+                nxt = None
             reasons = []
             if any(True for _ in b.references) and len(blocks) == 1:
                 reasons.append("labels, only block of the section")
